@@ -275,14 +275,14 @@ theorem toks_ok : ∀ (t : BT), Nodes t → ∀ x ∈ t.toks, PTok' x
 for every tree `t` of the level-`m` nonterminal whose operands are nodes, in any state that sees
 the tokens of `t` followed by a continuation `k` that does not start with an operand or with a
 binary operator of level `m` or tighter, `run F (.binaryExpression m none)` returns the AST of `t`
-and leaves exactly `k`, for every sufficient fuel. -/
+and leaves exactly `k`, for every fuel >= 2 * (nodes of `t`) + the operands' fuel. -/
 theorem binary_expression_parses_grammar_tree (hI : Iface Sees fuel0) (t : BT) (m : Nat)
     (hwf : WF binPrec m t) (hn : Nodes t) (k : List PT) (hk : StopAt binPrec m k) (hkt : ∀ x ∈ k, PTok' x)
     (s : PState) (hs : Sees s (t.toks ++ k)) :
-    ∃ F0, ∀ F, F0 ≤ F → ∃ s', run F (.binaryExpression m none) s = .ok (toVal t) s' ∧ Sees s' k := by
-  obtain ⟨f0, hf0⟩ := climb_correct binPrec t m hwf k hk
-  refine ⟨f0 + fuel0, fun F hF => ?_⟩
-  obtain ⟨s', h, hs', _, _⟩ := (sim hI f0).1 F m none (t.toks ++ k) t k s hF (hf0 f0 (Nat.le_refl _))
+    ∀ F, 2 * t.size + fuel0 ≤ F → ∃ s', run F (.binaryExpression m none) s = .ok (toVal t) s' ∧ Sees s' k := by
+  have hf0 := climb_correct binPrec t m hwf k hk
+  intro F hF
+  obtain ⟨s', h, hs', _, _⟩ := (sim hI (2 * t.size)).1 F m none (t.toks ++ k) t k s hF (hf0 _ (Nat.le_refl _))
     (by intro l hl; cases hl)
     (by intro x hx; rcases List.mem_append.mp hx with hx | hx; exact toks_ok t hn x hx; exact hkt x hx) hs
   exact ⟨s', h, hs'⟩
